@@ -6,6 +6,7 @@ import CkbVerif.Lemmas.RichCells
 import CkbVerif.Lemmas.RichReach
 import CkbVerif.Lemmas.RichCellPage
 import CkbVerif.Lemmas.RichHistory
+import CkbVerif.Lemmas.IndexerDeep
 
 /-!
 # C18, round 6 — the tx-pool overlay, the handlers' snapshot discipline, the descending seek key,
@@ -36,6 +37,10 @@ Model: `CkbVerif.Model.IndexerPool` (follows `util/indexer-sync/src/pool.rs`, th
 * `desc_seek_covers` / `desc_seek_17_witness` — the descending seek key lies above every row while the
   keys continue the prefix with at most `MAX_PREFIX_SEARCH_SIZE − args_len` bytes; a 17-byte padding
   (seeded change r5m2) hides the rows of a script whose args continue the searched args with 17 × 0xff.
+* `kv_follows_chain_any_reorg`, `kv_follows_checked_chain_any_reorg`, `kv_rollback_to_empty` — KEY-VALUE
+  model: from the store of any chain, after ANY history of appends and rollbacks (any depth, residue
+  of abandoned blocks included) whose appended blocks passed the per-append checks and did not run the
+  automatic prune, the answer rows are those of the plain replay of the surviving chain.
 * `rich_follows_chain_any_reorg`, `rich_rollback_any_depth` — relational model: after ANY interleaving
   of appends and rollbacks (rollbacks of ANY depth, never below the start), the database is EXACTLY
   (every relation, row ids and `is_spent` flags included) the database of appending the surviving
@@ -217,6 +222,129 @@ theorem desc_seek_17_witness :
     ops (descView MAX_PREFIX_SEARCH_SIZE ffStore pre 0) = some [⟨1, 0⟩, ⟨1, 1⟩] ∧
     ops (descView 17 ffStore pre 0) = some [⟨1, 1⟩] := by
   decide +kernel
+
+/-! ## key-value model: rollbacks of any depth, any interleaving -/
+
+/-- **the key-value indexer follows the chain through reorganisations of ANY depth.** The history
+starts from the store of ANY chain `c0` that satisfies the chain hypotheses (`ChainOK2/3/3T`, automatic
+prune included; `c0 = []` is the empty store) and is any list of `append b` / `rollback` steps
+(`kvRun`; rollbacks of any depth down to `c0`, any number of reorganisations, ConsumedOutPoint residue
+of abandoned blocks staying in the store as in the code). Hypothesis (`kvOKB`, decidable, evaluated on
+the ACTUAL store with its residue): every appended block passed the driver's per-append checks
+`wfAppend2B` / `freshB2` when it was appended, its automatic prune was absent or a no-op (`noPruneB`:
+number not a multiple of the prune interval, or at most `keep_num + 1`), and no rollback was applied
+with no block of the history left. Then, for the surviving chain `bl = c0 ++` (the appended blocks not
+rolled back): every answer row of the store is the replay spec of `bl` (OutPoint rows = `replayLive bl`,
+Tx*Script rows = `replayTxLock` / `replayTxType`, Cell*Script rows index exactly the replayed live
+cells), i.e. the answer rows of the plain replay of `bl` (`AnsEq`); the tip is the last surviving block
+of the history (the tip of `c0`'s store when none is left); the keys are duplicate-free; and `bl`
+satisfies the chain hypotheses of all the query theorems of `Props/C18.lean`. -/
+theorem kv_follows_chain_any_reorg (keep interval : Nat) (c0 : List Block)
+    (h2 : ChainOK2 keep interval [] c0) (h3 : ChainOK3 keep interval [] c0) (h3t : ChainOK3T keep interval [] c0)
+    (evs : List KvEv) (h : kvOKB keep interval (c0.foldl (append keep interval) [], []) evs = true) :
+    let S := (kvRun keep interval (c0.foldl (append keep interval) [], []) evs).1
+    let hist := kvChain (kvRun keep interval (c0.foldl (append keep interval) [], []) evs).2
+    let bl := c0 ++ hist
+    (∀ op, get S (.outPoint op) = (replayLive bl op).map Val.cell) ∧
+    (∀ sc bn i io t, get S (.txLock sc bn i io t) = (replayTxLock bl sc bn i io t).map Val.tx) ∧
+    (∀ sc bn i io t, get S (.txType sc bn i io t) = (replayTxType bl sc bn i io t).map Val.tx) ∧
+    (∀ sc bn txi io t, get S (.cellLock sc bn txi io) = some (.tx t) ↔
+      ∃ c : Cell, replayLive bl ⟨t, io⟩ = some c ∧ c.out.lock = sc ∧ c.bn = bn ∧ c.txIdx = txi) ∧
+    (∀ sc bn txi io t, get S (.cellType sc bn txi io) = some (.tx t) ↔
+      ∃ c : Cell, replayLive bl ⟨t, io⟩ = some c ∧ c.out.type = some sc ∧ c.bn = bn ∧ c.txIdx = txi) ∧
+    AnsEq S (bl.foldl (append keep interval) []) ∧
+    (tip S = match hist.getLast? with
+      | some b => some (b.number, b.hash)
+      | none => tip (c0.foldl (append keep interval) [])) ∧
+    NodupKeys S ∧
+    ChainOK2 keep interval [] bl ∧ ChainOK3 keep interval [] bl ∧ ChainOK3T keep interval [] bl := by
+  intro S hist bl
+  obtain ⟨g, si⟩ := kv_history_aux keep interval _ c0 evs (c0.foldl (append keep interval) [], [])
+    (good_start keep interval c0 h2 h3 h3t) trivial h
+  have htip := good_tip keep interval _ c0 _ _ g si
+  obtain ⟨rel, heq, c2, c3, c3t⟩ := g
+  have hrep := outPoint_eq_replay keep interval bl c2
+  have hcell : ∀ (op : OutPoint) (c : Cell),
+      get (bl.foldl (append keep interval) []) (.outPoint op) = some (.cell c) ↔ replayLive bl op = some c := by
+    intro op c
+    rw [hrep]
+    cases replayLive bl op <;> simp
+  refine ⟨fun op => by rw [heq _ rfl]; exact hrep op,
+    fun sc bn i io t => by rw [heq _ rfl]; exact txLock_eq_replay keep interval bl c3 sc bn i io t,
+    fun sc bn i io t => by rw [heq _ rfl]; exact txType_eq_replay keep interval bl c3t sc bn i io t, ?_, ?_,
+    heq, htip, rel.1, c2, c3, c3t⟩
+  · intro sc bn txi io t
+    rw [heq _ rfl, lockInv_chain2 keep interval bl [] lockInv_empty c2 sc bn txi io t]
+    simp only [hcell]
+  · intro sc bn txi io t
+    rw [heq _ rfl, typeInv_chain2 keep interval bl [] typeInv_empty c2 sc bn txi io t]
+    simp only [hcell]
+
+def kq0 : Block := ⟨0, 10, [⟨1, [⟨0, 4294967295⟩], [⟨1000, ⟨1, [1]⟩, none, []⟩, ⟨70, ⟨1, [1]⟩, some ⟨2, [5]⟩, []⟩]⟩]⟩
+def kq1 : Block := ⟨1, 11, [⟨2, [⟨0, 4294967295⟩], []⟩, ⟨3, [⟨1, 0⟩], [⟨100, ⟨1, [1]⟩, none, []⟩]⟩]⟩
+def kq2 : Block := ⟨2, 12, [⟨4, [⟨0, 4294967295⟩], []⟩, ⟨5, [⟨3, 0⟩, ⟨1, 1⟩], [⟨9, ⟨3, []⟩, none, []⟩]⟩]⟩
+def kq1' : Block := ⟨1, 13, [⟨6, [⟨0, 4294967295⟩], []⟩, ⟨7, [⟨1, 1⟩], [⟨7, ⟨1, [2]⟩, none, []⟩]⟩]⟩
+def kq2' : Block := ⟨2, 14, [⟨8, [⟨0, 4294967295⟩], []⟩, ⟨9, [⟨1, 0⟩, ⟨7, 0⟩], []⟩]⟩
+
+/-- not vacuous: blocks 0, 1, 2 (2 spends an output of 1 and one of 0), a reorganisation of DEPTH 2
+(two rollbacks), then 1' and 2' on the store that carries the ConsumedOutPoint residue of 1 and 2 (2'
+spends the cell block 1 had spent, 1' the cell block 2 had spent), then one more rollback and 2' again:
+the hypothesis holds, the surviving chain is [0, 1', 2'] and the live cells are those of its replay. -/
+example :
+    let evs := [KvEv.app kq0, .app kq1, .app kq2, .rb, .rb, .app kq1', .app kq2', .rb, .app kq2']
+    kvOKB 100 1000 ([], []) evs = true ∧
+    (kvChain (kvRun 100 1000 ([], []) evs).2).map (·.hash) = [10, 13, 14] ∧
+    tip (kvRun 100 1000 ([], []) evs).1 = some (2, 14) := by
+  decide +kernel
+
+/-- the same with every hypothesis decidable: the base chain passed the driver's per-append checks
+(`chainCheckedB`, the `wf` op of the driver) -/
+theorem kv_follows_checked_chain_any_reorg (keep interval : Nat) (c0 : List Block)
+    (hc : chainCheckedB keep interval [] c0 = true)
+    (evs : List KvEv) (h : kvOKB keep interval (c0.foldl (append keep interval) [], []) evs = true) :
+    let S := (kvRun keep interval (c0.foldl (append keep interval) [], []) evs).1
+    let bl := c0 ++ kvChain (kvRun keep interval (c0.foldl (append keep interval) [], []) evs).2
+    AnsEq S (bl.foldl (append keep interval) []) ∧
+    (∀ op, get S (.outPoint op) = (replayLive bl op).map Val.cell) ∧
+    ChainOK2 keep interval [] bl ∧ ChainOK3 keep interval [] bl ∧ ChainOK3T keep interval [] bl := by
+  intro S bl
+  obtain ⟨c2, c3, c3t⟩ := chainOK_of_checked keep interval c0 [] hc
+  obtain ⟨h1, _, _, _, _, heq, _, _, k2, k3, k3t⟩ :=
+    kv_follows_chain_any_reorg keep interval c0 c2 c3 c3t evs h
+  exact ⟨heq, h1, k2, k3, k3t⟩
+
+def kq3 : Block := ⟨3, 15, [⟨10, [⟨0, 4294967295⟩], [⟨5, ⟨1, [1]⟩, none, []⟩]⟩]⟩
+def kq4 : Block := ⟨4, 16, [⟨11, [⟨0, 4294967295⟩], []⟩, ⟨12, [⟨10, 0⟩], [⟨4, ⟨1, [1]⟩, none, []⟩]⟩]⟩
+def kq5 : Block := ⟨5, 17, [⟨13, [⟨0, 4294967295⟩], []⟩, ⟨14, [⟨12, 0⟩], []⟩]⟩
+def kq4' : Block := ⟨4, 18, [⟨15, [⟨0, 4294967295⟩], []⟩, ⟨16, [⟨10, 0⟩], [⟨3, ⟨1, [2]⟩, none, []⟩]⟩]⟩
+
+/-- not vacuous with a PRUNED base: `keep_num = 0`, `prune_interval = 3`; the base chain 0..3 is
+checked and its store has been pruned at block 3 (the Header rows of blocks 1 and 2 are gone: two Header
+rows are left); on it: blocks 4 and 5, a reorganisation of depth 2, block 4' (spending the cell block 4
+had spent): the hypotheses hold and the surviving chain is 0, 1, 2, 3, 4'. -/
+example :
+    let c0 := [kq0, kq1, kq2, kq3]
+    let base := c0.foldl (append 0 3) []
+    let evs := [KvEv.app kq4, .app kq5, .rb, .rb, .app kq4']
+    chainCheckedB 0 3 [] c0 = true ∧ (headerRows base).length = 2 ∧
+    kvOKB 0 3 (base, []) evs = true ∧
+    (kvChain (kvRun 0 3 (base, []) evs).2).map (·.hash) = [18] ∧
+    tip (kvRun 0 3 (base, []) evs).1 = some (4, 18) := by
+  decide +kernel
+
+/-- **a rollback of any depth**: appending `k` checked blocks to the empty store and rolling back `k`
+times leaves no answer row, no Header row and no TxHash row (only ConsumedOutPoint residue), for every
+`k`; more generally the history theorem above with `evs = apps ++ rollbacks`. -/
+theorem kv_rollback_to_empty (keep interval : Nat) (bs : List Block)
+    (h : kvOKB keep interval ([], []) (bs.map KvEv.app ++ List.replicate bs.length KvEv.rb) = true) :
+    let S := (kvRun keep interval ([], []) (bs.map KvEv.app ++ List.replicate bs.length KvEv.rb)).1
+    (∀ k, k.isAnswer = true → get S k = none) ∧ tip S = none := by
+  intro S
+  obtain ⟨_, _, _, _, _, heq, htip, _⟩ :=
+    kv_follows_chain_any_reorg keep interval [] trivial trivial trivial _ h
+  simp only [List.foldl_nil, List.nil_append] at heq htip
+  rw [kvRun_apps_rbs_chain keep interval bs] at heq htip
+  exact ⟨fun k hk => by rw [heq k hk]; rfl, htip⟩
 
 /-! ## relational model: rollbacks of any depth, any interleaving -/
 namespace RichIndexer
